@@ -7,9 +7,9 @@
   i.e. whether a subscription writes only to variables declared inside the subscribe closure:
   the `stateRows` of the regenerated table (writes from the application or subscription scope to a
   variable of an outer scope), decided by the kernel on every run.
-  Pinned tree: `MergeMapIWithContext` (index `i` in the application scope) and
-  `OnErrorResumeNextWith` (captured slice rewritten per application) — known findings, replayed by
-  the check; `ShareWithConfig` is hot by definition.
+  Found on the pinned tree and repaired (fix commits 11bf135, fd0e106): `MergeMapIWithContext` (index
+  `i` in the application scope) and `OnErrorResumeNextWith` (captured slice rewritten per
+  application); `ShareWithConfig` is hot by definition.
 -/
 import RoModel.Machine
 import RoModel.FactPreds
@@ -33,7 +33,7 @@ theorem table_ok : RoGen.Catalogue.table.all c12RowOk = true := by decide
 /-- the operators with hoisted state are exactly the listed ones -/
 theorem hoisted_state_rows :
     ((RoGen.Catalogue.table.filter (fun r => !r.stateRows.isEmpty)).map (·.name)).all
-      (["MergeMapIWithContext", "ShareWithConfig", "OnErrorResumeNextWith"].contains ·) = true := by decide
+      (["ShareWithConfig"].contains ·) = true := by decide
 
 end Ro.C12
 
